@@ -2,14 +2,18 @@
 from vflib import grammarmodel as GM
 
 DEFECT_HINT = [
-    (lambda k: k[0] == "rfc-only" and k[2] == "alpha" and ("HEXDIG" in k[1] or "surrogate" in k[1]), "lower-case hex digits in \\uXXXX are rejected (grammar lists upper-case only)"),
-    (lambda k: k[0] == "rfc-only", "a member-name-shorthand that begins/ends with a non-ASCII White_Space scalar is rejected (Unicode trim in the post-checks)"),
-    (lambda k: k[0] == "impl-only" and "member_name_shorthand" in k[1], "blank space inside a member-name-shorthand is accepted (token rule is not atomic)"),
-    (lambda k: k[0] == "impl-only" and "function_name" in k[1], "blank space inside a function name is accepted"),
-    (lambda k: k[0] == "impl-only" and k[1].endswith("name_selector/string") and k[2] == "blank", "an unescaped control character is accepted in a singular-query name (no control-character validation there)"),
-    (lambda k: k[0] == "impl-only" and k[2] == "digit" and "int" in k[1], "an integer outside the I-JSON range is accepted"),
-    (lambda k: k[0] == "impl-only" and ("_segment" in k[1] or "comp_op" in k[1]), "blank space inside singular-query brackets / after its dot is accepted"),
-    (lambda k: k[0] == "impl-only", "blank space inside a string escape sequence is accepted"),
+    (lambda k: k[0] == "rfc-only" and k[2] == "alpha" and ("HEXDIG" in k[1] or "surrogate" in k[1]), "lower-case hex digits in \\uXXXX are rejected"),
+    (lambda k: k[0] == "rfc-only" and k[2] == "unicode-space" and "name-first" in k[1], "a member-name-shorthand that begins with a non-ASCII White_Space scalar is rejected"),
+    (lambda k: k[0] == "rfc-only" and k[2] == "blank", "blank space that RFC 9535 allows here (S) is rejected"),
+    (lambda k: k[0] == "impl-only" and k[2] == "blank" and "member_name_shorthand" in k[1], "blank space inside a member-name-shorthand is accepted"),
+    (lambda k: k[0] == "impl-only" and "member_name_shorthand" in k[1], "blank space inside a member-name-shorthand is accepted (observed at the next name character)"),
+    (lambda k: k[0] == "impl-only" and k[2] == "blank" and "function_name" in k[1], "blank space inside a function name is accepted"),
+    (lambda k: k[0] == "impl-only" and k[2] == "blank" and ("escapable" in k[1] or "hexchar" in k[1] or "surrogate" in k[1] or "quoted" in k[1]), "blank space inside a string escape sequence is accepted"),
+    (lambda k: k[0] == "impl-only" and k[2] == "blank" and k[1].endswith("string"), "an unescaped control character (tab/LF/CR) is accepted inside a string"),
+    (lambda k: k[0] == "impl-only" and k[2] == "control", "an unescaped control character is accepted inside a string"),
+    (lambda k: k[0] == "impl-only" and k[2] == "digit" and "int" in k[1], "an integer with leading zeros or outside the I-JSON range is accepted"),
+    (lambda k: k[0] == "impl-only" and k[2] == "blank", "blank space is accepted where RFC 9535 has no S"),
+    (lambda k: k[0] == "impl-only" and k[2] == "$end", "the input may end here although RFC 9535 requires more (e.g. trailing blank space accepted)"),
 ]
 
 
